@@ -260,7 +260,14 @@ int runMonitor(const std::string& id) {
 		}
 		int st2 = 0;
 		bool ok2 = runChild(m, list, curPos, curPos + 1, m.cpuLimit * 2, errPath, &st2);
-		if (ok2) {
+		if (ok2 && (sig1 == SIGPROF || sig1 == SIGXCPU || sig1 == SIGVTALRM)) {
+			// the CPU-time limit fired once (loaded machine), the same case alone with twice the budget ran to completion: its verdict
+			// is the one of the completed run; counted so that the evidence shows it
+			std::ostringstream o;
+			o << "{\"t\":\"slow\",\"case\":" << cur << ",\"phase\":\"" << jesc(phase1) << "\"}";
+			writeLine(o.str());
+		}
+		else if (ok2) {
 			std::ostringstream o;
 			o << "{\"t\":\"flaky\",\"case\":" << cur << ",\"phase\":\"" << jesc(phase1) << "\",\"sig\":" << sig1 << ",\"desc\":\"" << jesc(desc1)
 			  << "\",\"log\":\"" << jesc(log1.substr(0, 3000)) << "\"}";
